@@ -12,6 +12,7 @@ package pb
 //@ func (*pb).DecodeRawEntry
 //@   requires validPB(p) && node != nil
 //@   ensures [decoded-entry-is-safe-to-use] err == nil ==> validEntry(result0) && fresh(result0)
+//@   ensures [decoded-entry-carries-the-requested-hash] err == nil ==> result0.Hash == hash
 
 //@ func (*pb).Write
 //@   requires p != nil && ipfs != nil
